@@ -251,7 +251,7 @@ def dump_known(fid, prop, sig):
     if path:
         with open(path, "a") as fh:
             fh.write(json.dumps({"finding": fid, "property": prop, "input": sig_input(sig), "section": sig.get("section", sig.get("sec", "")),
-                                 "ev": sig.get("ev"), "why": sig.get("why"), "site": sig.get("site_fn", "")}) + "\n")
+                                 "ev": sig.get("ev"), "why": sig.get("why"), "site": sig.get("site_fn", ""), "op": sig.get("op", ""), "strings": sig.get("strings", "")}) + "\n")
 
 
 def match_finding(findings, prop, sig):
